@@ -43,7 +43,7 @@ EXPECTED_PROBES = ["alt_spelling_hit", "with_nested", "with_restored_insert", "w
                    "defaults_overwrote_stale_default", "defaults_kept_user_value", "refresh_after_set",
                    "device_rejected", "device_accepted", "get_missing_raised", "get_default_used",
                    "kw_form", "mapping_value_replaced_subtree", "global_arm", "device_via_defaults_rejected",
-                   "device_via_defaults_accepted"]
+                   "device_via_defaults_accepted", "falsy_value_set", "falsy_value_read_with_default"]
 
 NODES = ["n1", "sec_a", "grp_b_c"]
 LEAVES = ["x", "y", "opt_one", "lim_lo_hi", "verbose"]
@@ -98,7 +98,10 @@ def _gen_items(r, i, n_items=None):
                           "map": [[lf, r.chance(0.5), 1000 + i * 20 + j * 5 + q]
                                   for q, lf in enumerate(leaves)]})
         else:
-            items.append({"path": _gen_path(r), "val": 1000 + i * 20 + j})
+            # mostly unique ints; sometimes a falsy value (0, False, '', None, 0.0)
+            val = 1000 + i * 20 + j if not r.chance(0.08) else ["F0", "FFalse", "Fempty", "FNone",
+                                                                 "F0.0"][r.randrange(5)]
+            items.append({"path": _gen_path(r), "val": val})
     # one call never mentions the same (normalised) path twice, nor a path and its ancestor
     out, seen = [], []
     for it in items:
@@ -295,6 +298,9 @@ class _Boom(Exception):
     pass
 
 
+_FALSY = {"F0": 0, "FFalse": False, "Fempty": "", "FNone": None, "F0.0": 0.0}
+
+
 def run(plan):
     cm = _cfgmod
     res = new_result()
@@ -360,7 +366,10 @@ def run(plan):
                     val = {(lf.replace("_", "-") if dash else lf): v for lf, dash, v in it["map"]}
                     mval = {lf: v for lf, dash, v in it["map"]}
                 else:
-                    val = mval = it["val"]
+                    val = mval = _FALSY.get(it["val"], it["val"]) if isinstance(it["val"], str) else it[
+                        "val"]
+                    if isinstance(it["val"], str):
+                        bump(probes, "falsy_value_set")
                 if op.get("form") == "kw":
                     kws["__".join(sp)] = val
                 else:
@@ -501,13 +510,15 @@ def run(plan):
                     else:
                         bump(probes, "get_missing_raised")
                     return
+                if want is not _ABSENT and op["default"] and not want and not isinstance(want, dict):
+                    bump(probes, "falsy_value_read_with_default")
                 if want is _ABSENT:
                     if op["default"] and got == "DFLT":
                         bump(probes, "get_default_used")
                     else:
                         viol("get_mismatch", f"{tag}: get({sp!r}) returned {got!r} for a key that "
                              "was never set", "get_mismatch:absent")
-                elif norm(got) != want:
+                elif norm(got) != want or type(got) is not type(want):
                     viol("get_mismatch", f"{tag}: get({sp!r}) = {got!r}, most recently set value "
                          f"is {want!r}", "get_mismatch:value")
             elif k == "device":
